@@ -7,7 +7,7 @@ import itertools
 from fractions import Fraction
 import common
 from common import sx, q, jq, cname, cnum, ok
-from units import U
+from units import U, BLOCK
 import props.c01 as c01
 
 ID = 'C17'
@@ -327,6 +327,121 @@ def sole_winner_cardinal(ctx, stream, count, rng):
     ctx.streams[stream] = dict(cases=n, deviations=bad)
 
 
+# ------------------------------------------------------------------ PreferenceAddition (Bucklin / Oklahoma) vs the model
+PA_COEFS = [['list', [1]], ['harmonic'], ['list', [1, '1/2', '1/4']], ['list', [1, 0, 2]], ['list', ['1/2', 1]], ['list', []]]
+
+
+def pa_py_ballot(b):
+    """case ballot (ints = plain ranks, lists = shared ranks) -> Python tuple"""
+    return tuple(frozenset(cname(k) for k in it) if isinstance(it, list) else cname(it) for it in b)
+
+
+def pa_py_coefs(spec):
+    if spec[0] == 'harmonic':
+        return lambda i: Fraction(1, i + 1)
+    return [int(q(x)) if q(x).denominator == 1 else q(x) for x in spec[1]]
+
+
+def pa_model_line(c):
+    votes = []
+    for b, w in c['votes']:
+        # a shared rank goes to the model in the ITERATION order of the frozenset the implementation will see
+        mb = [[cnum(x) for x in it] if isinstance(it, frozenset) else cnum(it) for it in pa_py_ballot(b)]
+        votes.append([mb, q(w)])
+    cs = [1] if c['coefs'][0] == 'harmonic' else [0, [q(x) for x in c['coefs'][1]]]
+    return '%d (%s %d %s %d)' % (BLOCK['C17'] + 0, sx(cs), 1 if c['split'] else 0, sx(votes), c['n'])
+
+
+def pa_evaluator(c):
+    import votelib.evaluate.sequential as seq
+    return seq.PreferenceAddition(coefficients=pa_py_coefs(c['coefs']), split_equal_rankings=c['split'])
+
+
+def pa_impl(c):
+    import votelib.evaluate.core as core
+    votes = {pa_py_ballot(b): (int(q(w)) if q(w).denominator == 1 else q(w)) for b, w in c['votes']}
+    res = pa_evaluator(c).evaluate(votes, c['n'])
+    return ok([sorted(cnum(x) for x in r) if isinstance(r, core.Tie) else cnum(r) for r in res])
+
+
+def pa_canon(c, wire):
+    v = common.parse_sx(wire)
+    if v[0] == 4:
+        return ('unmodelled',)
+    if v[0] != 0:
+        return ('err', v[1])
+    return ('ok', tuple(tuple(sorted(r)) if isinstance(r, list) else r for r in v[1]))
+
+
+def pa_nontrivial(c):
+    return c['n'] > 1 or any(isinstance(it, list) for b, _ in c['votes'] for it in b) or c['coefs'] != ['list', [1]]
+
+
+def pa_spec(c, io, mo):
+    """declarative clause on the implementation's output: a single Bucklin winner holds more than half of the (weighted)
+    ballots within the preferences counted when it is elected, i.e. within all of them"""
+    v = common.parse_sx(io)
+    if v[0] != 0 or c['n'] != 1 or c['coefs'] != ['list', [1]] or len(v[1]) != 1 or isinstance(v[1][0], list):
+        return None
+    w = v[1][0]
+    tot = sum(q(x) for _, x in c['votes'])
+    sup = sum(q(x) for b, x in c['votes'] if any((w in it) if isinstance(it, list) else w == it for it in b))
+    if not sup * 2 > tot:
+        return 'Bucklin winner %s is ranked on %s of %s ballots only: no majority at any round' % (cname(w), sup, tot)
+    return None
+
+
+def gen_pa_ballot(rng, ids, shared_p):
+    perm = ids[:]
+    rng.shuffle(perm)
+    if rng.random() < 0.45:
+        perm = perm[:rng.randint(0 if rng.random() < 0.05 else 1, len(perm))]
+    out, i = [], 0
+    while i < len(perm):
+        if rng.random() < shared_p:
+            k = rng.randint(1, min(3, len(perm) - i))
+            out.append(sorted(perm[i:i + k], key=lambda _: rng.random()))
+            i += k
+        else:
+            out.append(perm[i])
+            i += 1
+    return out
+
+
+def gen_pa(rng, count):
+    for _ in range(count):
+        m = rng.randint(2, 5)
+        ids = list(range(1, m + 1))
+        shared_p = rng.choice([0, 0, 0.15, 0.4])
+        prof = []
+        seen = set()
+        for _ in range(rng.randint(0 if rng.random() < 0.02 else 1, 7)):
+            b = gen_pa_ballot(rng, ids, shared_p)
+            key = pa_py_ballot(b)
+            if key in seen:
+                continue
+            seen.add(key)
+            w = rng.choice([rng.randint(1, 4), rng.randint(1, 4), rng.randint(0, 12), jq(Fraction(rng.randint(1, 9), rng.randint(1, 4)))])
+            prof.append([b, w])
+        coefs = rng.choice([PA_COEFS[0]] * 4 + [PA_COEFS[1]] * 3 + PA_COEFS[2:5] + ([PA_COEFS[5]] if rng.random() < 0.1 else []))
+        yield dict(unit='preference_addition', coefs=coefs, split=rng.random() < 0.75, votes=prof, n=rng.randint(1, min(4, m)))
+
+
+def gen_pa_exhaustive():
+    """all profiles of <= 2 ballot types over 3 candidates (full and truncated strict rankings, one shared pair), weights 1..2,
+    Bucklin and Oklahoma, 1..2 seats"""
+    ballots = []
+    for k in (1, 2, 3):
+        ballots += [list(p) for p in itertools.permutations([1, 2, 3], k)]
+    ballots += [[[1, 2], 3], [3, [1, 2]], [[2, 3]], [1, [2, 3]]]
+    for i, a in enumerate(ballots):
+        for b in ballots[i + 1:]:
+            for wa, wb in ((1, 1), (2, 1), (1, 2)):
+                for coefs in PA_COEFS[:2]:
+                    for n in (1, 2):
+                        yield dict(unit='preference_addition', coefs=coefs, split=True, votes=[[a, wa], [b, wb]], n=n)
+
+
 def corpus():
     import os, json, glob
     for p in sorted(glob.glob(os.path.join(common.VERIF, 'corpus', ID, '*.json'))):
@@ -365,6 +480,8 @@ def run_corpus_case(ctx, c, stream='corpus'):
         if r0[0] == 'ok' and sole_winner(r0[1]) == c['winner'] and not (r1[0] == 'ok' and sole_winner(r1[1]) == c['winner']):
             ctx.checker_false += 1
             ctx.report(stream, c, str(r1[1:]), 'n/a', '%s: sole winner lost after an upward move' % c['rule'])
+    elif c.get('unit') == 'preference_addition':
+        ctx.differential(stream, [c], pa_model_line, pa_impl, canon=pa_canon, nontrivial=pa_nontrivial, spec=pa_spec)
     elif c.get('unit') == 'highest_averages':
         ctx.differential(stream, [c], c01.model_line, c01.impl, canon=c01.canon, nontrivial=c01.nontrivial)
 
@@ -376,6 +493,11 @@ def explore(ctx, widen=1):
     kw = dict(canon=c01.canon, nontrivial=c01.nontrivial)
     ctx.differential('ha-tie', itertools.chain(c01.gen_random(rng, ctx.n(500, 6000) * widen), c01.gen_ties(rng, ctx.n(200, 2000) * widen),
                                                c01.gen_zero_caps(rng, ctx.n(100, 1000))), c01.model_line, c01.impl, **kw)
+    pex = list(gen_pa_exhaustive())
+    ctx.differential('pa-exhaustive-small', pex if ctx.tier != 'quick' else pex[::3], pa_model_line, pa_impl, canon=pa_canon,
+                     nontrivial=pa_nontrivial, spec=pa_spec)
+    ctx.differential('pa-random', gen_pa(rng, ctx.n(4000, 60000) * widen), pa_model_line, pa_impl, canon=pa_canon,
+                     nontrivial=pa_nontrivial, spec=pa_spec)
     ex = list(c01.gen_exhaustive())
     if ctx.tier == 'quick':
         ex = ex[::2]
